@@ -235,8 +235,12 @@ func (p *Program) VarLit(rel, name string) (*Lit, error) {
 		return nil, fmt.Errorf("anchor not found: variable %s in package %q", name, rel)
 	}
 	var hint types.Type
-	if o := pk.Types.Scope().Lookup(name); o != nil {
-		hint = o.Type()
+	for _, n := range pk.Types.Scope().Names() {
+		if o := pk.Types.Scope().Lookup(n); canonName(o) == name {
+			if _, isVar := o.(*types.Var); isVar {
+				hint = o.Type()
+			}
+		}
 	}
 	l := EvalLit(pk, e, hint)
 	if err := litErr(l); err != "" {
@@ -306,8 +310,9 @@ func ConstNames(pk *packages.Package, T types.Type) map[int64]string {
 			}
 		}
 		if v, ok := constant.Int64Val(c.Val()); ok {
-			if old, dup := out[v]; !dup || n < old {
-				out[v] = n
+			cn := canonName(c)
+			if old, dup := out[v]; !dup || cn < old {
+				out[v] = cn
 			}
 		}
 	}
